@@ -1,6 +1,20 @@
 import Lace.Props.C13
+import Lace.Props.C13Session
 #print axioms Lace.C13.move_reg_frame
 #print axioms Lace.C13.move_mem_frame
 #print axioms Lace.C13.resolveUser_spec
 #print axioms Lace.C13.oob_refused
 #print axioms Lace.C13.inspect_readonly
+#print axioms Lace.C13.quiet_step
+#print axioms Lace.C13.quiet_next
+#print axioms Lace.C13.session_frame
+#print axioms Lace.C13.session_mem_changed
+#print axioms Lace.C13.session_reg_changed
+#print axioms Lace.C13.session_pc_changed
+#print axioms Lace.C13.session_pc_inUser
+#print axioms Lace.C13.session_bps_changed
+#print axioms Lace.C13.session_confined
+#print axioms Lace.C13.session_readonly
+#print axioms Lace.C13.runCommand_setCmds
+#print axioms Lace.C13.actionLoop_quiet
+#print axioms Lace.C13.demo_session
